@@ -10,7 +10,11 @@ comment packet's run consists of — each followed by the pages of other streams
 and the next — and the pages behind the run.  `L.OK c`: every page is one `OggPage.write` produces
 and `OggPage(fileobj)` reads back unchanged; the run's pages have the edited stream's serial number,
 the pages between them do not; the run ends where the code stops collecting (first page that is
-complete or holds more than one packet); the codec's search finds the run's first page.
+complete or holds more than one packet); the codec's search finds the run's first page — for Vorbis
+and Theora: the first page in front of the run that starts with the identification magic has the
+run's serial number, the run's first page starts with the comment magic, and no page of that serial
+between the two does (`IdThenCommentOK`; comment pages of other Vorbis / Theora streams may come
+first: they are not the ones edited).
 -/
 import MutagenModel.Proofs.Container.OggInject
 set_option linter.unusedVariables false
@@ -82,5 +86,27 @@ example : contOK false (stream Example.layout.serial Example.layout.pages) := by
 between them -/
 example : Example.layout2.OK .vorbis ∧ toPackets Example.layout2.oldPages false = .ok [Example.part1 ++ Example.part2] :=
   ⟨Example.layout2_ok, Example.layout2_packets⟩
+
+/-- two Vorbis streams in one file in the order A-identification, B-identification, B-comment,
+A-comment (serials 7 and 8): the layout whose run is stream A's comment page is well-formed for the
+codec — the search passes over B's comment page — and a save (any comment, any padding choice)
+succeeds, leaves stream B's three pages exactly as they were, and puts the new comment packet into
+stream A in the place of its old one -/
+theorem ogg_two_vorbis_streams_first_is_edited (vc : Bytes) (pad : PadChoice) (new0 : Bytes) (new : List Page)
+    (hnp : newPacket .vorbis Example.commentPacket vc [] pad Example.layoutAB.render.length = .ok new0)
+    (hnew : newPages .vorbis [new0, Example.setupPacket] Example.layoutAB.oldPages = .ok new) (hn : new.length < 1000) :
+    Example.layoutAB.OK .vorbis ∧
+    save .vorbis Example.layoutAB.render vc [] pad = .ok (renderPages (Example.layoutAB.after new)) ∧
+    stream 8 (Example.layoutAB.after new) = [Example.idB, Example.commentB, Example.audioB] ∧
+    ∃ before behind, reasm [] (stream 7 Example.layoutAB.pages) = before ++ Example.commentPacket :: behind ∧
+      reasm [] (stream 7 (Example.layoutAB.after new)) = before ++ new0 :: behind :=
+  ⟨Example.layoutAB_ok, Example.layoutAB_edits_A vc pad new0 new hnp hnew hn⟩
+
+/-- … and its hypotheses are satisfiable: the empty comment with a callback that answers 2 -/
+example : newPacket .vorbis Example.commentPacket [0, 0, 0, 0, 0, 0, 0, 0, 1] [] (.callback fun _ _ => 2)
+      Example.layoutAB.render.length = .ok (magicVorbisComment ++ [0, 0, 0, 0, 0, 0, 0, 0, 1] ++ [0, 0]) ∧
+    (newPages .vorbis [magicVorbisComment ++ [0, 0, 0, 0, 0, 0, 0, 0, 1] ++ [0, 0], Example.setupPacket]
+      Example.layoutAB.oldPages).map List.length = .ok 1 := by
+  constructor <;> decide +kernel
 
 end Mutagen.C02
